@@ -82,10 +82,13 @@ def run_output(prop, tier, seed, want_tabs):
             for op in ops:
                 for tb in op["tabs"]:
                     T = op.get("T")
-                    if tb["trials"] == "prefix":
-                        tb["trials"] = list(range(0, max(1, (T or 2) // 2)))
+                    if T is None and tb["trials"] in ("prefix", "random"):
+                        # synthesized experiments: the length is only known in the worker, which resolves the selection
+                        tb["trials"] = {"kind": tb["trials"], "seed": rng.randrange(1 << 30)}
+                    elif tb["trials"] == "prefix":
+                        tb["trials"] = list(range(0, max(1, T // 2)))
                     elif tb["trials"] == "random":
-                        n = T or 2
+                        n = T
                         tb["trials"] = [rng.randrange(0, n) for _ in range(rng.randrange(1, n + 2))]     # may repeat indices
         for batch in batches(tasks, 120):
             obs = impl.run_tasks(batch, op_timeout=90)
